@@ -15,6 +15,9 @@ POOLS = {
               'k', 'Model3', 'w_w', 'Last'],
     'space': ['a b', 'two words', 'x y z', 'Big Name', 'n 1', 'sp  sp', 'q r', 'The End',
               'a b c d', 'In Out', 'u v', 'left right', 'up down', 'hi lo'],
+    # blanks at the edges and repeated blanks
+    'edgespace': [' lead', 'trail ', ' both ', 'in  ner', '  two', 'end  ', ' a b ', 'x ', ' y', ' z z', 'w  w ', '  v  ',
+                  ' u', 't '],
     'punct': ['a-b', 'x:y', '#1', 'a/b', '(p)', 'a,b', 'x=y', 'a&b', 'p|q', 'ab!', 'q?r',
               'a+b', 's;c', 'b[0]', 'c{d}', 'a<b', 'a>b', 'at@', 'pct%', 'til~de'],
     'uvlkw': ['features', 'or', 'mandatory', 'true', 'Integer', 'sum', 'constraints',
@@ -58,7 +61,7 @@ class Naming:
         self._offs = {c: self._rnd.randrange(len(POOLS[c])) for c in POOLS}
 
     def describe(self):
-        return {'classes': list(self.classes), 'k': self.k, 'seed': self.seed,
+        return {'classes': list(self.classes), 'attr_classes': list(self.attr_classes), 'k': self.k, 'seed': self.seed,
                 'map': {a: ascii_escape(c) for a, c in sorted(self.fwd.items())}}
 
     def _pick(self, classes, idx):
